@@ -87,6 +87,13 @@ class JsonSchemaParser:
         for key, val in schema.items():
             if key in constant.CONSTRAINTS_MAP:
                 constraints[constant.CONSTRAINTS_MAP[key]] = val
+        # JSON numbers 10.5 and 11 are both legal bounds of one schema, but a Rule
+        # requires its lower and upper bound to have the same type
+        bounds = [k for k in ('gt', 'ge', 'lt', 'le') if isinstance(constraints.get(k), (int, float))
+                  and not isinstance(constraints.get(k), bool)]
+        if len({_type(constraints[k]) for k in bounds}) > 1:
+            for k in bounds:
+                constraints[k] = float(constraints[k])
         return constraints
 
     def parse_field(self, schema: dict,
